@@ -8,35 +8,35 @@ CLAIMED = {
              text="Generated-input search over storage form x element kind x index-form pair x in/out-of-range values against a column-major reference model; the source matrix is re-read after every access."),
  "C04": dict(tech="proptest-generated assignment histories (index forms of C03, scalar/vector sources, op-assign, invalid targets/sources) vs a model copy of the matrix compared after every statement", sec="§3 C04",
              text="Stateful generated-input search: histories of 1-5 assignment statements on a mutable matrix; frame condition, shape, kind, written values and read-back are checked after every statement against a reference copy."),
- "C05": dict(tech="proptest-generated statement histories over 5 names / 11 value families; per-statement snapshot comparison (values + mutability) with frame conditions and named-error demands", sec="§3 C05",
+ "C05": dict(tech="proptest-generated statement histories over 5 names / 13 value families (scalars and matrices of all 14 numeric kinds, plain and annotated); per-statement snapshot comparison (values + mutability) with frame conditions and named-error demands", sec="§3 C05",
              text="Stateful generated-input search: 4-25 statements per session, one interpret() call each; after every statement the whole symbol snapshot is compared with the previous one (failed statements change nothing; successful ones change only their target) and immutables keep their defining value."),
- "C11": dict(tech="proptest-generated tilings (row bands x blocks, scalar/vector/matrix blocks, inline or via variables, perturbed invalid variants) vs block-placement model", sec="§3 C11",
-             text="Generated-input search over tilings of results up to 4x4 (8x8 thorough) with position-distinct elements so any misplacement is visible; invalid variants must be rejected."),
+ "C11": dict(tech="proptest-generated tilings of results up to 6x5 / 9x8 (row bands x blocks, scalar/vector/matrix blocks, inline or via variables, perturbed invalid variants) vs block-placement model", sec="§3 C11",
+             text="Generated-input search over tilings of results up to 6x5 (9x8 thorough) with position-distinct elements so any misplacement is visible; invalid variants must be rejected."),
  "C12": dict(tech="exhaustive kind-pair and reshape enumeration + proptest values vs exact rational conversion model; supported-conversion baseline table", sec="§3 C12",
              text="All 14x14 kind pairs and all equal-count reshapes up to 16 elements are enumerated; boundary/random values are generated; results are compared with an exact rational model (truncate/clamp, identity on representable values, column-major reshape, distinct-element sets)."),
  "C13": dict(tech="grammar-generated literal spellings (all forms of spec 4.2, suffixes/annotations, negation, kind boundaries) vs exact big-rational value and the host's correctly rounded decimal parser", sec="§3 C13",
              text="Generated-input search over literal spellings; each is evaluated alone and compared with the exact value of its digits (nearest f64/f32, exact based/suffixed integers, reduced rationals, clamp-or-reject for unfit typed literals)."),
- "C14": dict(tech="proptest-generated set pairs over 8-value universes of 8 element kinds with duplicate/alternative spellings, all operators and construction routes, comprehension shapes; mathematical-set reference + invariants on every observed set", sec="§3 C14",
+ "C14": dict(tech="proptest-generated set pairs over 8-value universes of 8 element kinds with duplicate/alternative spellings, all operators, construction routes and operand forms (literal / variable / expression per side, symbol and word form), comprehension shapes; mathematical-set reference + invariants on every observed set", sec="§3 C14",
              text="Generated-input search: operands written in random order with duplicates and alternative spellings of equal values; results compared with mathematical sets; every observed set must be duplicate-free, of one kind and report its size."),
  "C15": dict(tech="proptest-generated (kind,start,step,end) cases vs exact rational progression model", sec="§3 C15",
              text="Generated-input search: every run draws ranges per kind (on/off grid, near the kind maximum, zero/negative steps, empty/single) and compares the element sequence with an exact rational reference; failures are shrunk by proptest to a replay file."),
- "C16": dict(tech="proptest-generated arm lists (functions and match expressions, guards, tuple/array/enum patterns) in every order x all small arguments vs a reference arm evaluator; enumerated recurrences incl. 100 000-deep tail recursion", sec="§3 C16",
+ "C16": dict(tech="proptest-generated arm lists (functions and match expressions, guards, tuple / enum / seven array patterns incl. spread with elements on both sides) in every order x all small arguments vs a reference arm evaluator; enumerated recurrences incl. 100 000-deep tail recursion", sec="§3 C16",
              text="Generated-input search over arm lists and their orders with a reference evaluator (first matching arm whose guard holds), recurrences against closed forms in two binding styles, broadcast over matrices, and the error side (arity, no arm, non-exhaustive match)."),
- "C17": dict(tech="proptest-generated transition systems rendered as state machines vs reference simulation; result and state sequence (from [fsm] trace events) compared; ill-formed and non-terminating variants", sec="§3 C17",
+ "C17": dict(tech="proptest-generated transition systems rendered as state machines (guarded lists as one arm or split over two arms of the same state) vs reference simulation; result and state sequence (from [fsm] trace events) compared; ill-formed and non-terminating variants", sec="§3 C17",
              text="Generated-input search over small machines (guarded branches with overlaps, loops that make progress, array-pattern states) and inputs; the visited state sequence reconstructed from trace events must equal the simulated one; ill-formed machines must be rejected and non-terminating ones stopped by the limit."),
  "C18": dict(tech="proptest-generated table pairs (0-2 shared columns, duplicate keys, five column kinds) x six joins in symbol and word form vs reference relational algebra compared as multisets; row/column selection in order", sec="§3 C18",
              text="Generated-input search over table pairs with many-to-many matches; the join result is compared as a multiset of rows over the union of columns including optional-kind promotion and holes; row selection compared in order."),
  "C02": dict(tech="grammar-generated formulas over all precedence tiers (ASCII and Unicode spellings, unary minus/not, redundant parentheses, matrix operands) vs a reference parser built from the specified tiers; tree shape and evaluated value compared; metamorphic parenthesisation", sec="§3 C02",
              text="Generated-input search over formulas mixing every operator tier; the parse tree's grouping is compared with a reference precedence-climbing parser and the value with the fully parenthesised form."),
- "C06": dict(tech="shared typed program generator (progs.rs) -> interpret vs compile -> serialise -> load -> run in a fresh interpreter; differential oracle on result and every symbol; culprit-feature localisation for signatures", sec="§3 C06",
+ "C06": dict(tech="shared typed program generator (progs.rs: 14 element kinds, typed sets/tables, non-ASCII strings) -> interpret vs compile -> serialise -> load -> run in a fresh interpreter; differential oracle on result; panics keyed by panic site, run rejections by the unregistered plan step", sec="§3 C06",
              text="Differential generated-input search: programs from a typed constructive generator are run directly and through the bytecode route; results, symbol tables and mutability must agree; compile/load failures on supported features are violations keyed by the feature that causes them."),
- "C07": dict(tech="generated programs -> compiled images; structure-aware mutation (header fields, section offsets/sizes, const blob words, chunk swaps, truncation, CRC re-sealing) + byte-level bursts; oracle: intact image round-trips, damaged image is rejected or loads to the same program, never panics/hangs/over-allocates", sec="§3 C07",
+ "C07": dict(tech="generated programs -> compiled images; structure-aware mutation (header fields, section offsets/sizes, const blob words, chunk swaps, truncation, CRC re-sealing) + byte-level bursts; allocation probe (largest single request bounded by file size); thorough tier adds a coverage-guided libFuzzer stage (loader_raw, loader_crcfix) whose artifacts are decided by the same oracle; oracle: intact image round-trips, damaged image is rejected or loads to the same program, never panics/hangs/over-allocates", sec="§3 C07",
              text="Fault-injection search over serialised programs: every mutant must be rejected with an error or decode to a program equal to the original; panics, watchdog overruns and allocation beyond the address-space cap are violations."),
- "C08": dict(tech="every suite program (642) and .mec file (168) + 40-construct grammar generator + typed program generator; round-trip oracle parse -> format -> parse with trees compared modulo source ranges/whitespace tokens, idempotence of format", sec="§3 C08",
+ "C08": dict(tech="every suite program (642) and .mec file (168) + recursive grammar generator of programs and Mechdown documents (xgen) + 40-construct generator + typed program generator; thorough tier adds a coverage-guided libFuzzer stage (format_roundtrip); round-trip oracle parse -> format -> parse with trees compared modulo source ranges/whitespace tokens, idempotence of format", sec="§3 C08",
              text="Round-trip generated-input search over the whole grammar and the repository's own corpus; any formatted text that fails to parse, parses to a different tree, or changes when formatted again is a violation, localised to the emitter at fault."),
- "C09": dict(tech="token-alphabet strings, Unicode stress strings, token-level mutants and character prefixes of valid programs/documents; validity predicate: no panic, tree or located report, ranges inside the input, format_error total, identical outcome on re-parse from another working directory; per-case watchdog", sec="§3 C09",
+ "C09": dict(tech="token-alphabet strings, Unicode stress strings, token-level mutants and character prefixes of valid programs/documents (corpus + grammar-generated); thorough tier adds a coverage-guided libFuzzer stage (parse_text) decided by the same oracle; validity predicate: no panic, tree or located report, ranges inside the input, format_error total, identical outcome on re-parse from another working directory; per-case watchdog", sec="§3 C09",
              text="Generated-input search over malformed and adversarial text with a validity predicate on the outcome; panics (with source location as signature), uninitialised/out-of-input ranges, non-determinism are violations; budget overruns are counted as timeouts, never judged."),
- "C10": dict(tech="programs from the shared generator woven into Mechdown documents (pre-screened prose elements, unnamed/named/disabled fences); metamorphic oracle: document snapshot == code-only snapshot; per-namespace isolation; error containment", sec="§3 C10",
+ "C10": dict(tech="programs from the shared generator woven into Mechdown documents (56 prose elements whose classification is fixed from the pinned tree, unnamed/named/disabled fences); metamorphic oracle: document snapshot == code-only snapshot; per-namespace isolation; error containment", sec="§3 C10",
              text="Metamorphic generated-input search: prose that is prose on its own, woven between code, must not change what the code computes; named fences evaluate in isolated interpreters; an error inside a named fence stays inside."),
  "C19": dict(tech="typed program generator; determinism (fresh interpreters, sibling thread), step() idempotence on pure programs, re-evaluation after input change vs from-scratch run; plan-step localisation for signatures", sec="§3 C19",
              text="Generated-input search over programs and re-evaluation schedules: the same program gives the same values in fresh interpreters, re-running the plan of a pure program changes nothing, and results after an input change equal a from-scratch evaluation."),
